@@ -1,3 +1,234 @@
-pub fn run(_args: &[String]) {
-    println!("not implemented");
+//! Portable scalars (C16): one line per case, `P <cid> <type> <op> <a> [<b>]`.
+//! `enc` / `dec` / `val` results are compared with the model; for every other operation the line
+//! carries both the portable result (`p=`) and the native type's result re-encoded in the
+//! portable type's byte order (`n=`): they must be equal (panic vs panic included).
+#![allow(clippy::all)]
+use crate::probe::{bytes_to_hex, hex_to_bytes, parse_num};
+use flatty::portable::{be, le, Bool};
+use flatty::prelude::*;
+use num_traits::{Bounded, FromPrimitive, Num, NumCast, One, Signed, ToPrimitive, Zero};
+use std::mem::{align_of, size_of};
+use std::panic::{catch_unwind, AssertUnwindSafe};
+
+fn guard<F: FnOnce() -> String>(f: F) -> String {
+    catch_unwind(AssertUnwindSafe(f)).unwrap_or_else(|_| "panic".into())
+}
+fn both<F: FnOnce() -> String, G: FnOnce() -> String>(p: F, n: G) -> String {
+    format!("p={} n={}", guard(p), guard(n))
+}
+fn opt<T, F: Fn(T) -> String>(o: Option<T>, f: F) -> String {
+    match o {
+        Some(x) => format!("some:{}", f(x)),
+        None => "none".into(),
+    }
+}
+
+macro_rules! int_common {
+    ($P:ty, $N:ty, $U:ty, $tb:ident, $op:expr, $a:expr, $b:expr, $raw:expr) => {{
+        let a_n: $N = ($a as $U) as $N;
+        let b_n: $N = ($b as $U) as $N;
+        let a_p = <$P as From<$N>>::from(a_n);
+        let b_p = <$P as From<$N>>::from(b_n);
+        let enc = |x: $N| bytes_to_hex(&x.$tb());
+        let encp = |x: $P| bytes_to_hex(&x.to_bytes());
+        match $op {
+            "enc" => Some(format!("bytes={} size={} align={}", encp(a_p), size_of::<$P>(), align_of::<$P>())),
+            "dec" => {
+                let v = hex_to_bytes($raw);
+                let p = <$P>::from_bytes(v.as_slice().try_into().unwrap());
+                Some(format!("bits={:#x} flatalign={} flatsize={}", (<$N as From<$P>>::from(p) as $U) as u128, <$P as FlatBase>::ALIGN, <$P as FlatSized>::SIZE))
+            }
+            "roundtrip" => Some(both(|| encp(<$P as From<$N>>::from(<$N as From<$P>>::from(a_p))), || enc(a_n))),
+            "add" => Some(both(|| encp(a_p + b_p), || enc(a_n + b_n))),
+            "sub" => Some(both(|| encp(a_p - b_p), || enc(a_n - b_n))),
+            "mul" => Some(both(|| encp(a_p * b_p), || enc(a_n * b_n))),
+            "div" => Some(both(|| encp(a_p / b_p), || enc(a_n / b_n))),
+            "rem" => Some(both(|| encp(a_p % b_p), || enc(a_n % b_n))),
+            "addassign" => Some(both(|| { let mut x = a_p; x += b_p; encp(x) }, || { let mut x = a_n; x += b_n; enc(x) })),
+            "subassign" => Some(both(|| { let mut x = a_p; x -= b_p; encp(x) }, || { let mut x = a_n; x -= b_n; enc(x) })),
+            "mulassign" => Some(both(|| { let mut x = a_p; x *= b_p; encp(x) }, || { let mut x = a_n; x *= b_n; enc(x) })),
+            "divassign" => Some(both(|| { let mut x = a_p; x /= b_p; encp(x) }, || { let mut x = a_n; x /= b_n; enc(x) })),
+            "remassign" => Some(both(|| { let mut x = a_p; x %= b_p; encp(x) }, || { let mut x = a_n; x %= b_n; enc(x) })),
+            "pcmp" => Some(both(|| format!("{:?}", a_p.partial_cmp(&b_p)), || format!("{:?}", a_n.partial_cmp(&b_n)))),
+            "eq" => Some(both(|| format!("{}", a_p == b_p), || format!("{}", a_p.to_bytes() == b_p.to_bytes()))),
+            "zero" => Some(both(|| encp(<$P>::zero()), || enc(<$N>::zero()))),
+            "one" => Some(both(|| encp(<$P>::one()), || enc(<$N>::one()))),
+            "iszero" => Some(both(|| format!("{}", a_p.is_zero()), || format!("{}", a_n.is_zero()))),
+            "minv" => Some(both(|| encp(<$P as Bounded>::min_value()), || enc(<$N>::MIN))),
+            "maxv" => Some(both(|| encp(<$P as Bounded>::max_value()), || enc(<$N>::MAX))),
+            "tou64" => Some(both(|| opt(a_p.to_u64(), |x| x.to_string()), || opt(a_n.to_u64(), |x| x.to_string()))),
+            "toi64" => Some(both(|| opt(a_p.to_i64(), |x| x.to_string()), || opt(a_n.to_i64(), |x| x.to_string()))),
+            "tousize" => Some(both(|| opt(a_p.to_usize(), |x| x.to_string()), || opt(a_n.to_usize(), |x| x.to_string()))),
+            "fromu64" => Some(both(|| opt(<$P>::from_u64($a as u64), encp), || opt(<$N>::from_u64($a as u64), enc))),
+            "fromi64" => Some(both(|| opt(<$P>::from_i64($a as u64 as i64), encp), || opt(<$N>::from_i64($a as u64 as i64), enc))),
+            "fromusize" => Some(both(|| opt(<$P>::from_usize($a as usize), encp), || opt(<$N>::from_usize($a as usize), enc))),
+            "numcast" => Some(both(|| opt(<$P as NumCast>::from($a as u64), encp), || opt(<$N as NumCast>::from($a as u64), enc))),
+            "default" => Some(both(|| encp(<$P>::default()), || enc(<$N>::default()))),
+            "display" => Some(both(|| format!("{}/{:?}", a_p, a_p).replace(' ', "_"), || format!("{}/{:?}", a_n, a_n).replace(' ', "_"))),
+            "radix" => {
+                let s = format!("{}", ($a as u64) % 100000);
+                Some(both(|| opt(<$P as Num>::from_str_radix(&s, 10).ok(), encp), || opt(<$N as Num>::from_str_radix(&s, 10).ok(), enc)))
+            }
+            _ => None,
+        }
+    }};
+}
+
+macro_rules! int_ord {
+    ($P:ty, $N:ty, $U:ty, $tb:ident, $op:expr, $a:expr, $b:expr) => {{
+        let a_n: $N = ($a as $U) as $N;
+        let b_n: $N = ($b as $U) as $N;
+        let a_p = <$P as From<$N>>::from(a_n);
+        let b_p = <$P as From<$N>>::from(b_n);
+        let enc = |x: $N| bytes_to_hex(&x.$tb());
+        let encp = |x: $P| bytes_to_hex(&x.to_bytes());
+        match $op {
+            "cmp" => Some(both(|| format!("{:?}", a_p.cmp(&b_p)), || format!("{:?}", a_n.cmp(&b_n)))),
+            "min" => Some(both(|| encp(a_p.min(b_p)), || enc(a_n.min(b_n)))),
+            "max" => Some(both(|| encp(a_p.max(b_p)), || enc(a_n.max(b_n)))),
+            _ => None,
+        }
+    }};
+}
+
+macro_rules! int_signed {
+    ($P:ty, $N:ty, $U:ty, $tb:ident, $op:expr, $a:expr, $b:expr) => {{
+        let a_n: $N = ($a as $U) as $N;
+        let b_n: $N = ($b as $U) as $N;
+        let a_p = <$P as From<$N>>::from(a_n);
+        let b_p = <$P as From<$N>>::from(b_n);
+        let enc = |x: $N| bytes_to_hex(&x.$tb());
+        let encp = |x: $P| bytes_to_hex(&x.to_bytes());
+        match $op {
+            "neg" => Some(both(|| encp(-a_p), || enc(-a_n))),
+            "abs" => Some(both(|| encp(Signed::abs(&a_p)), || enc(Signed::abs(&a_n)))),
+            "abssub" => Some(both(|| encp(Signed::abs_sub(&a_p, &b_p)), || enc(Signed::abs_sub(&a_n, &b_n)))),
+            "signum" => Some(both(|| encp(Signed::signum(&a_p)), || enc(Signed::signum(&a_n)))),
+            "ispos" => Some(both(|| format!("{}", a_p.is_positive()), || format!("{}", Signed::is_positive(&a_n)))),
+            "isneg" => Some(both(|| format!("{}", a_p.is_negative()), || format!("{}", Signed::is_negative(&a_n)))),
+            _ => None,
+        }
+    }};
+}
+
+macro_rules! float_case {
+    ($P:ty, $N:ty, $U:ty, $tb:ident, $op:expr, $a:expr, $b:expr, $raw:expr) => {{
+        let a_n: $N = <$N>::from_bits($a as $U);
+        let b_n: $N = <$N>::from_bits($b as $U);
+        let a_p = <$P as From<$N>>::from(a_n);
+        let b_p = <$P as From<$N>>::from(b_n);
+        let enc = |x: $N| bytes_to_hex(&x.$tb());
+        let encp = |x: $P| bytes_to_hex(&x.to_bytes());
+        // the payload of a NaN produced by arithmetic is not specified by IEEE 754 / Rust: compare "is NaN"
+        let encn = |x: $N| if x.is_nan() { "nan".to_string() } else { bytes_to_hex(&x.$tb()) };
+        let encpn = |x: $P| if <$N as From<$P>>::from(x).is_nan() { "nan".to_string() } else { bytes_to_hex(&x.to_bytes()) };
+        match $op {
+            "enc" => format!("bytes={} size={} align={}", encp(a_p), size_of::<$P>(), align_of::<$P>()),
+            "dec" => {
+                let v = hex_to_bytes($raw);
+                let p = <$P>::from_bytes(v.as_slice().try_into().unwrap());
+                format!("bits={:#x} flatalign={} flatsize={}", <$N as From<$P>>::from(p).to_bits() as u128, <$P as FlatBase>::ALIGN, <$P as FlatSized>::SIZE)
+            }
+            "roundtrip" => both(|| encp(<$P as From<$N>>::from(<$N as From<$P>>::from(a_p))), || enc(a_n)),
+            "add" => both(|| encpn(a_p + b_p), || encn(a_n + b_n)),
+            "sub" => both(|| encpn(a_p - b_p), || encn(a_n - b_n)),
+            "mul" => both(|| encpn(a_p * b_p), || encn(a_n * b_n)),
+            "div" => both(|| encpn(a_p / b_p), || encn(a_n / b_n)),
+            "rem" => both(|| encpn(a_p % b_p), || encn(a_n % b_n)),
+            "neg" => both(|| encp(-a_p), || enc(-a_n)),
+            "addassign" => both(|| { let mut x = a_p; x += b_p; encpn(x) }, || { let mut x = a_n; x += b_n; encn(x) }),
+            "mulassign" => both(|| { let mut x = a_p; x *= b_p; encpn(x) }, || { let mut x = a_n; x *= b_n; encn(x) }),
+            "pcmp" => both(|| format!("{:?}", a_p.partial_cmp(&b_p)), || format!("{:?}", a_n.partial_cmp(&b_n))),
+            "eq" => both(|| format!("{}", a_p == b_p), || format!("{}", a_p.to_bytes() == b_p.to_bytes())),
+            "zero" => both(|| encp(<$P>::zero()), || enc(<$N>::zero())),
+            "one" => both(|| encp(<$P>::one()), || enc(<$N>::one())),
+            "iszero" => both(|| format!("{}", a_p.is_zero()), || format!("{}", a_n.is_zero())),
+            "minv" => both(|| encp(<$P as Bounded>::min_value()), || enc(<$N>::MIN)),
+            "maxv" => both(|| encp(<$P as Bounded>::max_value()), || enc(<$N>::MAX)),
+            "tou64" => both(|| opt(a_p.to_u64(), |x| x.to_string()), || opt(a_n.to_u64(), |x| x.to_string())),
+            "toi64" => both(|| opt(a_p.to_i64(), |x| x.to_string()), || opt(a_n.to_i64(), |x| x.to_string())),
+            "fromu64" => both(|| opt(<$P>::from_u64($a as u64), encp), || opt(<$N>::from_u64($a as u64), enc)),
+            "fromi64" => both(|| opt(<$P>::from_i64($a as u64 as i64), encp), || opt(<$N>::from_i64($a as u64 as i64), enc)),
+            "default" => both(|| encp(<$P>::default()), || enc(<$N>::default())),
+            "display" => both(|| format!("{}/{:?}", a_p, a_p).replace(' ', "_"), || format!("{}/{:?}", a_n, a_n).replace(' ', "_")),
+            other => format!("HARNESS-ERROR unknown float op {}", other),
+        }
+    }};
+}
+
+macro_rules! uint_type {
+    ($P:ty, $N:ty, $tb:ident, $op:expr, $a:expr, $b:expr, $raw:expr) => {
+        int_common!($P, $N, $N, $tb, $op, $a, $b, $raw)
+            .or_else(|| int_ord!($P, $N, $N, $tb, $op, $a, $b))
+            .unwrap_or_else(|| format!("HARNESS-ERROR unknown op {}", $op))
+    };
+}
+macro_rules! sint_type {
+    ($P:ty, $N:ty, $U:ty, $tb:ident, $op:expr, $a:expr, $b:expr, $raw:expr) => {
+        int_common!($P, $N, $U, $tb, $op, $a, $b, $raw)
+            .or_else(|| int_ord!($P, $N, $U, $tb, $op, $a, $b))
+            .or_else(|| int_signed!($P, $N, $U, $tb, $op, $a, $b))
+            .unwrap_or_else(|| format!("HARNESS-ERROR unknown op {}", $op))
+    };
+}
+
+pub fn run_line(args: &[&str]) -> String {
+    let ty = args[0];
+    let op = args[1];
+    let raw = args.get(2).copied().unwrap_or("0");
+    let a: u128 = if op == "dec" || op == "val" { 0 } else { parse_num(raw) };
+    let b: u128 = args.get(3).map(|s| parse_num(s)).unwrap_or(0);
+    match ty {
+        "le::U16" => uint_type!(le::U16, u16, to_le_bytes, op, a, b, raw),
+        "le::U32" => uint_type!(le::U32, u32, to_le_bytes, op, a, b, raw),
+        "le::U64" => uint_type!(le::U64, u64, to_le_bytes, op, a, b, raw),
+        "be::U16" => uint_type!(be::U16, u16, to_be_bytes, op, a, b, raw),
+        "be::U32" => uint_type!(be::U32, u32, to_be_bytes, op, a, b, raw),
+        "be::U64" => uint_type!(be::U64, u64, to_be_bytes, op, a, b, raw),
+        "le::I16" => sint_type!(le::I16, i16, u16, to_le_bytes, op, a, b, raw),
+        "le::I32" => sint_type!(le::I32, i32, u32, to_le_bytes, op, a, b, raw),
+        "le::I64" => sint_type!(le::I64, i64, u64, to_le_bytes, op, a, b, raw),
+        "be::I16" => sint_type!(be::I16, i16, u16, to_be_bytes, op, a, b, raw),
+        "be::I32" => sint_type!(be::I32, i32, u32, to_be_bytes, op, a, b, raw),
+        "be::I64" => sint_type!(be::I64, i64, u64, to_be_bytes, op, a, b, raw),
+        "le::F32" => float_case!(le::F32, f32, u32, to_le_bytes, op, a, b, raw),
+        "le::F64" => float_case!(le::F64, f64, u64, to_le_bytes, op, a, b, raw),
+        "be::F32" => float_case!(be::F32, f32, u32, to_be_bytes, op, a, b, raw),
+        "be::F64" => float_case!(be::F64, f64, u64, to_be_bytes, op, a, b, raw),
+        "Bool" => {
+            let ab = a & 1 != 0;
+            let bb = b & 1 != 0;
+            let e = |x: Bool| format!("{:02x}", x as u8);
+            match op {
+                "enc" => format!("bytes={} size={} align={}", e(Bool::from(ab)), size_of::<Bool>(), align_of::<Bool>()),
+                "val" => {
+                    let v = hex_to_bytes(raw);
+                    match Bool::validate(&v) {
+                        Ok(()) => "ok".into(),
+                        Err(err) => format!("err:{:?}:{}", err.kind, err.pos),
+                    }
+                }
+                "dec" => {
+                    let v = hex_to_bytes(raw);
+                    match Bool::from_bytes(&v) {
+                        Ok(x) => format!("bits={:#x} flatalign={} flatsize={}", bool::from(*x) as u8, <Bool as FlatBase>::ALIGN, <Bool as FlatSized>::SIZE),
+                        Err(_) => "invalid".into(),
+                    }
+                }
+                "not" => both(|| e(!Bool::from(ab)), || e(Bool::from(!ab))),
+                "and" => both(|| e(Bool::from(ab) & Bool::from(bb)), || e(Bool::from(ab & bb))),
+                "or" => both(|| e(Bool::from(ab) | Bool::from(bb)), || e(Bool::from(ab | bb))),
+                "xor" => both(|| e(Bool::from(ab) ^ Bool::from(bb)), || e(Bool::from(ab ^ bb))),
+                "andassign" => both(|| { let mut x = Bool::from(ab); x &= Bool::from(bb); e(x) }, || e(Bool::from(ab & bb))),
+                "orassign" => both(|| { let mut x = Bool::from(ab); x |= Bool::from(bb); e(x) }, || e(Bool::from(ab | bb))),
+                "xorassign" => both(|| { let mut x = Bool::from(ab); x ^= Bool::from(bb); e(x) }, || e(Bool::from(ab ^ bb))),
+                "roundtrip" => both(|| e(Bool::from(bool::from(Bool::from(ab)))), || e(Bool::from(ab))),
+                "default" => both(|| e(Bool::default()), || e(Bool::from(bool::default()))),
+                "eq" => both(|| format!("{}", Bool::from(ab) == Bool::from(bb)), || format!("{}", ab == bb)),
+                "cmp" => both(|| format!("{:?}", Bool::from(ab).cmp(&Bool::from(bb))), || format!("{:?}", ab.cmp(&bb))),
+                other => format!("HARNESS-ERROR unknown Bool op {}", other),
+            }
+        }
+        other => format!("HARNESS-ERROR unknown portable type {}", other),
+    }
 }
